@@ -64,6 +64,35 @@ Section C02.
         = u 0 x +! dt *! sumf (fun j => (Q m j -! QE m j) *! f j 0 x) 1 M +! tauval tau m x.
   Proof. exact (expl_sweep_matrix_form kO kI kadd kmul ksub kopp Rth M dt t0 nodes Q feval). Qed.
 
+
+  (* multi_implicit.update_nodes: two successive implicit solves per node; u* is the first-stage value *)
+  Theorem C02_multi_implicit_two_stage_form : forall Q1 Q2 u f tau,
+    solver_contract kmul ksub solve feval 0 -> solver_contract kmul ksub solve feval 1 ->
+    let r := mi_update kO kadd kmul ksub M dt t0 nodes Q solve feval Q1 Q2 u f tau in
+    (forall j, j = 0 \/ M < j -> fst r j = u j /\ snd r j = f j) /\
+    forall m, 1 <= m <= M ->
+      snd r m = feval (tn m) (fst r m) /\
+      exists ustar : V, forall x,
+        ustar x -! dt *! Q1 m m *! feval (tn m) ustar 0 x -! dt *! sumf (fun j => Q1 m j *! snd r j 0 x) 1 (m - 1)
+        = u 0 x +! dt *! sumf (fun j => (Q m j -! Q1 m j) *! f j 0 x) 1 M
+                +! dt *! sumf (fun j => Q m j *! f j 1 x) 1 M +! tauval tau m x
+        /\
+        fst r m x -! dt *! sumf (fun j => Q2 m j *! snd r j 1 x) 1 m
+        = ustar x -! dt *! sumf (fun j => Q2 m j *! f j 1 x) 1 M.
+  Proof. exact (mi_sweep_two_stage_form kO kI kadd kmul ksub kopp Rth M dt t0 nodes Q solve feval). Qed.
+
+
+  (* Runge-Kutta sweepers (Butcher matrix A in pySDC layout): every stage satisfies the stage equation
+       U_m - dt sum_{j<=m} A[m,j] f(U_j) = u0,  f stored at the stage's own time and value *)
+  Theorem C02_runge_kutta_stage_form : forall (A : nat -> nat -> K) u f,
+    solver_contract kmul ksub solve feval 0 ->
+    let r := rk_update kO kadd kmul keqb M dt t0 nodes solve feval 1 (fun _ => A) u f in
+    (forall j, j = 0 \/ M < j -> fst r j = u j /\ snd r j = f j) /\
+    forall m, 1 <= m <= M ->
+      snd r m = feval (tn m) (fst r m) /\
+      forall x, fst r m x -! dt *! sumf (fun j => A m j *! snd r j 0 x) 1 m = u 0 x.
+  Proof. exact (rk_stage_form kO kI kadd kmul ksub kopp keqb Rth keqb_true M dt t0 nodes solve feval). Qed.
+
   Theorem C02_integrate_is_dtQF : forall np (f : nat -> nat -> V) m x,
     integrate kO kadd kmul M dt Q np f m x = dt *! sumf (fun j => Q m j *! ftot kO kadd np (f j) x) 1 M.
   Proof. exact (integrate_is_dtQF kO kI kadd kmul ksub kopp Rth M dt Q). Qed.
@@ -87,6 +116,8 @@ End C02.
 Print Assumptions C02_generic_implicit_matrix_form.
 Print Assumptions C02_imex_matrix_form.
 Print Assumptions C02_explicit_matrix_form.
+Print Assumptions C02_multi_implicit_two_stage_form.
+Print Assumptions C02_runge_kutta_stage_form.
 Print Assumptions C02_integrate_is_dtQF.
 Print Assumptions C02_end_point_copy.
 Print Assumptions C02_end_point_quadrature.
